@@ -21,7 +21,9 @@ RULE = ('A case is a batch of hypernym digraphs (edge i->j = "j is a hypernym of
         'graph: roots/leaves/taxonomy_depth per part of speech, hypernym_paths/min_depth/max_depth per node, '
         'common/lowest_common_hypernyms/shortest_path per ordered pair (all pairs for n<=5, 16 '
         'drawn pairs above), each with simulate_root False and True, compared with brute-force '
-        'reference functions. Sub interlingual: a sparse lexicon L expanded over E (C12\'s '
+        'reference functions. Sub split-lexicons: graphs of 2-6 nodes divided between a lexicon '
+        'and an extension of it (relations crossing the two are declared by the extension), '
+        'queried through a Wordnet over both, same oracle. Sub interlingual: a sparse lexicon L expanded over E (C12\'s '
         'generator plus a constructed chain of two concepts L lacks below two synsets of L): '
         'common_hypernyms(a,b) for all pairs of one lexicon == intersection of the reference '
         'ancestor sets on the ILI-mapped graph (placeholders identified by ILI), lowest a non-empty '
@@ -320,6 +322,36 @@ def _big_graph(draw):
     return d
 
 
+@st.composite
+def _split_graph(draw):
+    """A graph whose nodes are divided between a lexicon and an extension of it."""
+    n = draw(st.integers(2, 6))
+    if n <= 4:
+        d = draw(G.drawn_graph(n, st.one_of(G.masks(n), G.dag_biased(n), G.forest(n))))
+    else:
+        d = draw(G.random_graph(n, n))
+    d['split'] = draw(st.integers(1, (1 << n) - 1)) | 2        # node 1 at least
+    d['split'] &= ~1
+    return d
+
+
+def _split(tier):
+    return G.batch_of(_split_graph(), (1, 4, 6, 8))
+
+
+def _classify_split(case):
+    non, tags = _classify(case)
+    for d in case['graphs']:
+        g = G.Graph.of(G.norm(d))
+        sp = G.norm(d)['split']
+        roots = G.true_roots(g)
+        if any(sp >> r & 1 for r in roots) and any(not sp >> r & 1 for r in roots):
+            tags.append('roots-in-both-lexicons')
+        if any((sp >> i & 1) != (sp >> j & 1) for i, j in g.edges):
+            tags.append('edge-crosses-lexicons')
+    return True, tags
+
+
 def _random_big(tier):
     return G.batch_of(_big_graph(), (1, 3, 2, 4, 3, 4))
 
@@ -430,6 +462,10 @@ SUBS = [
     Sub('interlingual', _il_oracle, _il_classify, strategy=_il_cases,
         budget={'quick': 60, 'thorough': 1500}, case_timeout=120, timeout_is_violation=True,
         sample=lambda c: c, require_tags=('common->=2-placeholder-ancestors',)),
+    Sub('split-lexicons', oracle, _classify_split, strategy=_split,
+        budget={'quick': 30, 'thorough': 400}, case_timeout=600, timeout_is_violation=True,
+        sample=_sample, purge_every=8,
+        require_tags=('roots-in-both-lexicons', 'edge-crosses-lexicons')),
     Sub('enum-n<=3', oracle, _classify, enumerate=_enum_small,
         exhaustive_note='all 530 labelled digraphs (self-loops included) on 1-3 nodes, each '
                         'with a plain and a labelled a/s variant; all ordered pairs; '
